@@ -5,6 +5,11 @@ import (
 	"fmt"
 
 	protoV1 "github.com/golang/protobuf/proto" //nolint
+	"google.golang.org/protobuf/runtime/protoiface"
+	"google.golang.org/protobuf/runtime/protoimpl"
+	"google.golang.org/protobuf/types/known/durationpb"
+	"google.golang.org/protobuf/types/known/timestamppb"
+	"google.golang.org/protobuf/types/known/wrapperspb"
 )
 
 // LegacyV1 is a golang/protobuf v1-era message: a plain struct with protobuf tags, Reset/String/
@@ -29,6 +34,34 @@ func (m *LegacyV1) XXX_Marshal(b []byte, deterministic bool) ([]byte, error) {
 	return append(b, bb...), err
 }
 func (m *LegacyV1) XXX_Unmarshal(b []byte) error { return protoV1.Unmarshal(b, m) }
+
+// LegacyV1WKT: a v1-era message whose fields are well-known types (their JSON form is special: a timestamp is a
+// string, a wrapper a bare value)
+type LegacyV1WKT struct {
+	T *timestamppb.Timestamp  `protobuf:"bytes,1,opt,name=t" json:"t,omitempty"`
+	D *durationpb.Duration    `protobuf:"bytes,2,opt,name=d" json:"d,omitempty"`
+	W *wrapperspb.Int64Value  `protobuf:"bytes,3,opt,name=w" json:"w,omitempty"`
+	N *string                 `protobuf:"bytes,4,opt,name=n" json:"n,omitempty"`
+	L []*wrapperspb.BoolValue `protobuf:"bytes,5,rep,name=l" json:"l,omitempty"`
+}
+
+func (m *LegacyV1WKT) Reset()         { *m = LegacyV1WKT{} }
+func (m *LegacyV1WKT) String() string { return protoV1.CompactTextString(m) }
+func (*LegacyV1WKT) ProtoMessage()    {}
+
+// LegacyV1Ext: a v1-era EXTENDABLE message (extension range 100..999)
+type LegacyV1Ext struct {
+	A                      *int32                    `protobuf:"varint,1,opt,name=a" json:"a,omitempty"`
+	XXX_InternalExtensions protoimpl.ExtensionFields `json:"-"`
+	XXX_unrecognized       []byte                    `json:"-"`
+}
+
+func (m *LegacyV1Ext) Reset()         { *m = LegacyV1Ext{} }
+func (m *LegacyV1Ext) String() string { return protoV1.CompactTextString(m) }
+func (*LegacyV1Ext) ProtoMessage()    {}
+func (*LegacyV1Ext) ExtensionRangeArray() []protoiface.ExtensionRangeV1 {
+	return []protoiface.ExtensionRangeV1{{Start: 100, End: 999}}
+}
 
 // LegacyPlain: the same without XXX_ methods (only the v1 message interface)
 type LegacyPlain struct {
